@@ -70,7 +70,7 @@ Section UpdateGaps.
         { intros x Hx. apply in_app_or in Hx. destruct Hx as [Hx|[<-|[]]]; cbn [fst snd]; [|lia].
           destruct (Hb x Hx). lia. }
         split; [left; exact W|]. intros j Hj. rewrite M, is_missing_app, is_missing_cons.
-        cbn [is_missing existsb]. unfold contains. cbn [fst snd].
+        cbn [is_missing existsb]. rewrite ?contains_unfold. cbn [fst snd].
         destruct (j =? k) eqn:Ej.
         * assert (j = k) by lia. subst j. rewrite Ef. lia.
         * destruct (is_missing gs j) eqn:Emj; [specialize (Hrng j Emj)|]; lia.
@@ -81,7 +81,7 @@ Section UpdateGaps.
         * destruct (Z.eq_dec c 1) as [->|Hc1].
           -- right. split; [reflexivity|]. f_equal. f_equal. lia.
           -- left. cbn [gaps_wf fst snd]. repeat split; lia.
-        * intros j Hj. cbn [is_missing existsb]. unfold contains. cbn [fst snd].
+        * intros j Hj. cbn [is_missing existsb]. rewrite ?contains_unfold. cbn [fst snd].
           destruct (j =? k) eqn:Ej; [lia|].
           destruct (is_missing gs j) eqn:Emj; lia.
       + destruct (is_missing gs k) eqn:Ef; cbn [negb andb].
@@ -103,7 +103,7 @@ Section UpdateGaps.
              { intros x Hx. apply in_app_or in Hx. destruct Hx as [Hx|[<-|[]]]; cbn [fst snd]; [|lia].
                destruct (Hb x Hx). lia. }
              split; [left; exact W|]. intros j Hj. rewrite M, is_missing_app, is_missing_cons.
-             cbn [is_missing existsb]. unfold contains. cbn [fst snd].
+             cbn [is_missing existsb]. rewrite ?contains_unfold. cbn [fst snd].
              destruct (j =? k) eqn:Ej.
              ++ assert (j = k) by lia. subst j. rewrite Ef. lia.
              ++ destruct (is_missing gs j) eqn:Emj; [specialize (Hrng j Emj)|]; lia.
@@ -121,7 +121,7 @@ Section UpdateGaps.
     update_gaps c [(n, n)] k (Some n) (Z.max n k) missing = update_gaps c [] k (Some n) (Z.max n k) missing.
   Proof.
     intros k n missing Hc1 Hk. unfold update_gaps, oldest_bound.
-    assert (Hf : is_missing [(n, n)] k = false) by (cbn; unfold contains; cbn; lia).
+    assert (Hf : is_missing [(n, n)] k = false) by (cbn; rewrite ?contains_unfold; cbn; lia).
     rewrite Hf. cbn [is_missing existsb negb andb].
     destruct (negb missing && (Z.max n k - n >=? c)) eqn:E1; [reflexivity|].
     destruct missing; cbn [negb andb app length].
@@ -143,7 +143,7 @@ Section UpdateGaps.
     - apply update_gaps_wf; assumption.
     - rewrite update_gaps_empty_range by lia.
       destruct (update_gaps_wf [] k n missing I Hk) as [G M].
-      split; [exact G|]. intros j Hj. rewrite (M j Hj). cbn. unfold contains. cbn.
+      split; [exact G|]. intros j Hj. rewrite (M j Hj). cbn. rewrite ?contains_unfold. cbn.
       destruct (j =? k); [reflexivity|]. lia.
   Qed.
 
@@ -158,13 +158,13 @@ Section UpdateGaps.
     - destruct (cleanup_spec (k - c + 1) (k + 1) (k - c) [(Z.min (k - c + 1 - 1) k, k + 1)]) as [W M].
       { cbn. split; [lia|]. split; [intros x []|exact I]. }
       { intros x [<-|[]]. cbn. lia. }
-      split; [left; exact W|]. intros j Hj. rewrite M. cbn. unfold contains. cbn [fst snd].
+      split; [left; exact W|]. intros j Hj. rewrite M. cbn. rewrite ?contains_unfold. cbn [fst snd].
       destruct (j =? k) eqn:Ej; lia.
     - try rewrite andb_true_r. cbv iota. split.
       + destruct (Z.eq_dec c 1) as [->|Hc1].
         * right. split; [reflexivity|]. f_equal. f_equal. lia.
         * left. cbn [gaps_wf fst snd]. repeat split; lia.
-      + intros j Hj. cbn. unfold contains. cbn [fst snd]. destruct (j =? k) eqn:Ej; lia.
+      + intros j Hj. cbn. rewrite ?contains_unfold. cbn [fst snd]. destruct (j =? k) eqn:Ej; lia.
   Qed.
 End UpdateGaps.
 
